@@ -328,8 +328,64 @@ fn fd_sequences(case: u64, r: &mut Rng) {
     let flen = *r.pick(&[0usize, 1, 7, 8, 9, 20, 100, 5000]);
     let content = r.bytes(flen);
     let ncalls = 1 + r.usize_below(12);
-    let kind = r.below(8);
+    let kind = r.below(10);
     let ctx = jobj! {"case" => case, "len" => flen, "kind" => kind};
+    if kind >= 8 {
+        // TcpStream over loopback (if the sandbox allows it; otherwise recorded and skipped)
+        let pair = || -> std::io::Result<(std::net::TcpStream, std::net::TcpStream)> {
+            let l = std::net::TcpListener::bind("127.0.0.1:0")?;
+            let c = std::net::TcpStream::connect(l.local_addr()?)?;
+            let (a, _) = l.accept()?;
+            Ok((a, c))
+        };
+        let (p1, p2) = match (pair(), pair()) {
+            (Ok(a), Ok(b)) => (a, b),
+            _ => {
+                out::note("C13/tcp-loopback-unavailable", J::Null);
+                return;
+            }
+        };
+        let (mut a1, mut b1) = p1;
+        let (mut a2, mut b2) = p2;
+        if kind == 8 {
+            let n = flen.min(4000);
+            b1.write_all(&content[..n]).unwrap();
+            b2.write_all(&content[..n]).unwrap();
+            drop(b1);
+            drop(b2);
+            // let the kernel deliver everything before reading (loopback is immediate, but be safe)
+            std::thread::sleep(std::time::Duration::from_millis(2));
+            let mut left = n;
+            for i in 0..ncalls {
+                let blen = *r.pick(&[0usize, 1, 3, 8, 9, 16, 24, 300]);
+                let exact = r.chance(1, 3);
+                // a short read is legal for a socket: only compare when both sides can deliver in full
+                if !read_step("TcpStream", &mut a1, &mut a2, blen.min(left.max(1)), exact && blen <= left, i, left, &ctx) {
+                    break;
+                }
+                left = left.saturating_sub(blen.min(left.max(1)));
+            }
+        } else {
+            let mut total = 0usize;
+            for i in 0..ncalls {
+                let blen = *r.pick(&[0usize, 1, 3, 8, 9, 16, 24, 300]);
+                let data = r.bytes(blen);
+                if !write_step("TcpStream", &mut a1, &mut a2, &data, r.chance(1, 2), i, usize::MAX, &ctx) {
+                    break;
+                }
+                total += blen;
+            }
+            drop(a1);
+            drop(a2);
+            let (mut g1, mut g2) = (vec![], vec![]);
+            let _ = b1.read_to_end(&mut g1);
+            let _ = b2.read_to_end(&mut g2);
+            if g1 != g2 || g1.len() != total {
+                v("TcpStream", "write/peer-received-differs", jobj! {"volatile_len" => g1.len(), "std_len" => g2.len(), "sent" => total});
+            }
+        }
+        return;
+    }
     match kind {
         0 | 1 => {
             // File reader (kind 1: through BorrowedFd)
